@@ -84,4 +84,10 @@ CLAIMS["C03"] = {"engine": "chainsim", "level": "exploration", "design_ref": "4/
 CLAIMS["C06"] = {"engine": "chainsim", "level": "exploration", "design_ref": "4/C06", "technique": "deterministic simulation of whole nodes certifying and aggregating among themselves, plus a certificate-forger fault: aggregate and single commits built from drawn heights, signer subsets and tamperings whose admissibility is known by construction, compared with the node's verdict; own-aggregate self-check after every generator tick",
     "text": "Nodes run the real certificate pipeline on chains that leave the first 100 heights; every aggregate commit a node would embed must pass its own verification, forged aggregate commits must be accepted exactly when construction says they are admissible (incl. the next-parameter bound and the weight threshold), and forged single commits must not enter the pool unless valid. Sampling of chain positions, subsets and tamperings.",
     "note": _chain_note + " BLS primitives trusted; zero-padded aggregation bits give no verdict."}
-PENDING = {}
+CLAIMS["C07"] = {"engine": "chainsim", "level": "exploration", "design_ref": "4/C07, 5", "technique": "deterministic simulation with a Byzantine validator, late/withheld blocks and clock skew: every received block classified by a reference LIP-0014 fork choice (incl. receive slots) and compared with the node's reaction; contradiction predicate compared in both argument orders with a reference predicate on all header pairs the histories produce",
+    "text": "History- and time-dependent clauses of C07 on whole simulated nodes: fork-choice classification of every processed block against a reference rule, symmetry/agreement of the contradiction predicate on header pairs from honest and Byzantine generators, no contradicting header applied, no honest header flagged. The exhaustive small-range enumeration of header pairs is not done (pure function, outside the technique).",
+    "note": _chain_note + " Header pairs are those the simulated histories produce, not all pairs."}
+CLAIMS["C09"] = {"engine": "chainsim", "level": "exploration", "design_ref": "4/C09, 5", "technique": "deterministic simulation with hostile-peer faults: corrupted copies of real payloads and crafted messages injected into every gossip validator/handler and RPC handler of whole running nodes, corrupted sync responses, well-signed invalid blocks; a panic or an endless request loop inside a node step is the verdict",
+    "text": "Whole nodes under normal traffic receive corrupted and crafted gossip and RPC payloads at every network-facing entry point of consensus, sync and transaction pool; the process model of the simulator turns a panic or a non-terminating step into a violation. Sampling of corruptions; the p2p envelope layer and the HTTP RPC server are not in this harness.",
+    "note": _chain_note + " Not exhaustive over byte strings; p2p envelopes are covered by C18's malformed traffic, trie proof verifiers by C10/C11."}
+PENDING = {"C08": "no schedule, clock, fault or interleaving in it: codec round trip, canonical strict decoding, ID stability and Lisk32 conversion are pure functions of one input value; deciding them means generating values and byte strings (property-based input generation), which this technique family does not do. The simulated runs do push every block, transaction, single commit, sync message and ABI request/response through the real codecs (wire, disk and ABI loopback), and a decode/encode disagreement there would surface as a rejected honest block or a diverging state in the C02/C03/C05/C13 oracles, but that is incidental coverage of the values runs happen to produce, not a decision of C08."}
